@@ -18,6 +18,18 @@ import (
 // permutation (n <= 4) or rotation (n >= 5) of the sampling map's iteration order.
 
 type c09Config struct {
+	// Sequel: after the first incoming item was decided, resident key SeqDel is deleted (and the
+	// tombstone applied), then a second new key (8) arrives after SeqFreq Gets with cost SeqCost:
+	// decisions must not depend on leftovers of an earlier admission attempt
+	// Poison: five hot residents make a first newcomer fail, then ALL of them are deleted and five
+	// cold keys take their place; a second newcomer (warmer than every resident) must be judged
+	// against the residents of that moment, not against candidates sampled for the first one
+	Poison  bool  `json:"stale_pool,omitempty"`
+	HotGets int   `json:"hot_gets,omitempty"`
+	Sequel  bool  `json:"sequel,omitempty"`
+	SeqDel  int   `json:"sequel_del_key,omitempty"`
+	SeqCost int64 `json:"sequel_cost,omitempty"`
+	SeqFreq int   `json:"sequel_gets,omitempty"`
 	MaxCost  int64   `json:"max_cost"`
 	Costs    []int64 `json:"resident_costs"`  // resident i has key i+1
 	Freq     []int   `json:"resident_gets"`   // number of Gets per resident
@@ -28,6 +40,9 @@ type c09Config struct {
 }
 
 func c09History(cf *c09Config) []SeqEvent {
+	if cf.Poison {
+		return c09PoisonHistory(cf)
+	}
 	var h []SeqEvent
 	op := func(o Op) {
 		if o.K == "set" {
@@ -65,6 +80,59 @@ func c09History(cf *c09Config) []SeqEvent {
 		return h
 	}
 	op(Op{K: "set", Key: inKey, Cost: cf.InCost})
+	app()
+	if cf.Sequel {
+		op(Op{K: "del", Key: cf.SeqDel})
+		app()
+		for k := 0; k < cf.SeqFreq; k++ {
+			op(Op{K: "get", Key: 8})
+			pol()
+		}
+		op(Op{K: "set", Key: 8, Cost: cf.SeqCost})
+		app()
+	}
+	return h
+}
+
+func c09PoisonHistory(cf *c09Config) []SeqEvent {
+	var h []SeqEvent
+	op := func(o Op) {
+		if o.K == "set" {
+			o.Val = int64(len(h) + 1)
+		}
+		h = append(h, SeqEvent{K: "op", Op: &o})
+	}
+	app := func() { h = append(h, SeqEvent{K: "applier", Pick: 0}) }
+	pol := func() { h = append(h, SeqEvent{K: "policy", Pick: 0}) }
+	n := int(cf.MaxCost)
+	for i := 1; i <= n; i++ {
+		op(Op{K: "set", Key: i, Cost: 1})
+		app()
+	}
+	for i := 1; i <= n; i++ {
+		for k := 0; k < cf.HotGets; k++ {
+			op(Op{K: "get", Key: i})
+			pol()
+		}
+	}
+	op(Op{K: "set", Key: 9, Cost: 1}) // first newcomer, never accessed
+	app()
+	for i := 1; i <= n; i++ {
+		op(Op{K: "del", Key: i})
+		app()
+	}
+	// (the first newcomer may have been admitted when HotGets is 0: delete it as well)
+	op(Op{K: "del", Key: 9})
+	app()
+	for i := 1; i <= n; i++ {
+		op(Op{K: "set", Key: 10 + i, Cost: 1})
+		app()
+	}
+	for k := 0; k < cf.InFreq; k++ {
+		op(Op{K: "get", Key: 8})
+		pol()
+	}
+	op(Op{K: "set", Key: 8, Cost: cf.InCost})
 	app()
 	return h
 }
@@ -399,6 +467,37 @@ func c09Jobs(tier string) []Job {
 							}
 						}
 					}
+				}
+			}
+		}
+	}
+	// sequels: a second admission attempt after a resident was deleted (full populations only,
+	// where the first newcomer can be rejected)
+	var seq []c09Config
+	for _, cf := range all {
+		var sum int64
+		for _, c := range cf.Costs {
+			sum += c
+		}
+		if cf.InKey != 9 || sum != cf.MaxCost || cf.InCost > cf.MaxCost || len(cf.Costs) > 3 || cf.InFreq > 1 {
+			continue
+		}
+		for d := 1; d <= len(cf.Costs); d++ {
+			for _, sc := range []int64{1, 2} {
+				for sf := 0; sf <= 2; sf += 2 {
+					c2 := cf
+					c2.Sequel, c2.SeqDel, c2.SeqCost, c2.SeqFreq = true, d, sc, sf
+					seq = append(seq, c2)
+				}
+			}
+		}
+	}
+	all = append(all, seq...)
+	for _, mc := range []int64{5, 6} {
+		for hot := 0; hot <= 3; hot++ {
+			for inF := 0; inF <= 3; inF++ {
+				for _, inC := range []int64{1, 2} {
+					all = append(all, c09Config{Poison: true, HotGets: hot, MaxCost: mc, InKey: 8, InCost: inC, InFreq: inF, MapOrder: "rot"})
 				}
 			}
 		}
